@@ -63,39 +63,37 @@ func r14_2(c *Ctx) {
 			continue
 		}
 		recv := fn.Params[0]
-		// stores into the receiver (whole or field-level)
-		var zeroing *ssa.Store
-		var others []*ssa.Store
+		name := fnLabel(fn)
+		// Stores into the receiver are "unsetting" (the zero value, or result 0 of the guarded constructor,
+		// which is the zero value whenever the constructor reports an error — checked below as its contract)
+		// or "setting" (anything else, field-level stores included). An input that is rejected must leave the
+		// value unset: every path to a return that may carry an error passes an unsetting store, and no
+		// setting store lies between the last unsetting store and that return.
+		var unsetting, setting []*ssa.Store
 		eachInstr(fn, func(in ssa.Instruction) {
 			st, ok := in.(*ssa.Store)
 			if !ok || rootAddr(st.Addr) != ssa.Value(recv) {
 				return
 			}
-			if st.Addr == ssa.Value(recv) && isZeroConst(st.Val) && zeroing == nil && st.Block() == fn.Blocks[0] {
-				zeroing = st
+			if st.Addr == ssa.Value(recv) && (isZeroConst(st.Val) || isCtorResult0(P, st.Val)) {
+				unsetting = append(unsetting, st)
 				return
 			}
-			others = append(others, st)
+			setting = append(setting, st)
 		})
-		name := fnLabel(fn)
-		if zeroing == nil {
-			c.bad(name+":zero-first", P.pos(fn.Pos()), "the decoder does not reset the receiver to the unset value before anything else: an invalid input leaves the previous value in place")
+		isUnsetting := func(in ssa.Instruction) bool {
+			for _, u := range unsetting {
+				if in == ssa.Instruction(u) {
+					return true
+				}
+			}
+			return false
+		}
+		if len(unsetting) == 0 {
+			c.bad(name+":zero-first", P.pos(fn.Pos()), "the decoder never resets the receiver to the unset value: an invalid input leaves the previous value in place")
 			continue
 		}
-		// the zeroing precedes every return and every other store
-		first := true
-		for _, in := range fn.Blocks[0].Instrs {
-			if in == ssa.Instruction(zeroing) {
-				break
-			}
-			switch in.(type) {
-			case *ssa.Store, *ssa.Call, *ssa.Return, *ssa.If:
-				first = false
-			}
-		}
-		c.check(first, name+":zero-first", P.ipos(zeroing), "receiver reset to the unset value first", "something precedes the reset of the receiver")
-		// no store on a path to an error return
-		bad := false
+		zeroOK, storeOK := true, true
 		for _, ret := range returnsOf(fn) {
 			isErr := false
 			for _, s := range sources(ret.Results[0]) {
@@ -106,16 +104,47 @@ func r14_2(c *Ctx) {
 			if !isErr {
 				continue
 			}
-			for _, st := range others {
-				if reachesAvoiding(afterInstr(st), ret, nil, nil) {
-					bad = true
+			if reachesAvoiding(entryPoint(fn), ret, isUnsetting, nil) {
+				zeroOK = false
+				c.bad(name+":zero-first", P.ipos(ret), "an error return is reachable without the receiver having been reset to the unset value: an invalid input leaves the previous value in place")
+			}
+			for _, st := range setting {
+				if reachesAvoiding(afterInstr(st), ret, isUnsetting, nil) {
+					storeOK = false
 					c.bad(name+":store-before-error", P.ipos(st), "the receiver is written on a path that ends in an error return ("+P.ipos(ret)+"): an invalid input does not leave the value unset")
 				}
 			}
 		}
-		if !bad {
-			c.ok(name+":store-before-error", P.pos(fn.Pos()), "no store into the receiver lies on a path to an error return")
+		if zeroOK {
+			c.ok(name+":zero-first", P.ipos(unsetting[0]), "every error return is preceded by a reset of the receiver (zero value or the constructor's result)")
 		}
+		if storeOK {
+			c.ok(name+":store-before-error", P.pos(fn.Pos()), "no setting store into the receiver lies on a path to an error return")
+		}
+	}
+	// the constructor's contract the above relies on: a non-nil error comes with the zero value
+	if ctor := P.Fn("newMessageField"); ctor != nil {
+		good := true
+		for _, ret := range returnsOf(ctor) {
+			if len(ret.Results) != 2 {
+				good = false
+				continue
+			}
+			errNil := true
+			for _, s := range sources(ret.Results[1]) {
+				if !isNilConst(s) {
+					errNil = false
+				}
+			}
+			if !errNil {
+				for _, s := range sources(ret.Results[0]) {
+					if !isZeroConst(s) {
+						good = false
+					}
+				}
+			}
+		}
+		c.check(good, "newMessageField:error-means-unset", P.pos(ctor.Pos()), "the constructor returns the zero value together with every error", "newMessageField can return a non-zero value together with an error: callers that store its result unconditionally keep an invalid value")
 	}
 	// an invalid input is reported: in every error-returning function that calls the guarded constructor,
 	// every return reachable from the constructor's failure edge carries a non-nil error
@@ -158,6 +187,24 @@ func r14_2(c *Ctx) {
 			})
 		}
 		if !found {
+			// untested, but returned as is: every return after the call carries the constructor's error
+			passes := true
+			n := 0
+			forward([]startPoint{afterInstr(call)}, func(in ssa.Instruction) searchAction {
+				if r, ok := in.(*ssa.Return); ok && len(r.Results) == res.Len() {
+					n++
+					for _, src := range sources(r.Results[res.Len()-1]) {
+						if !isErr(src) {
+							passes = false
+						}
+					}
+				}
+				return cont
+			})
+			if passes && n > 0 {
+				c.ok(name, P.ipos(call), "the constructor's error is returned as is")
+				continue
+			}
 			c.bad(name, P.ipos(call), "the validation result of newMessageField is never tested: an input containing a line break is not reported")
 			continue
 		}
@@ -292,6 +339,9 @@ func checkNewlineIndex(c *Ctx, ni, inc *ssa.Function) {
 	name := "parser.NewlineIndex"
 	rets := returnsOf(ni)
 	if newlineIndexLib(c, ni, "shape") {
+		return
+	}
+	if newlineIndexLoop(c, ni, "shape") {
 		return
 	}
 	if len(rets) != 1 || len(rets[0].Results) != 2 || len(ni.Params) != 1 {
@@ -574,6 +624,293 @@ func newlineIndexLib(c *Ctx, ni *ssa.Function, part string) bool {
 		c.check(shapeOK, name+":length", P.ipos(find), "length is 0 exactly when no line-break byte exists", "NewlineIndex (library form) is wrong: "+whyShape)
 	} else {
 		c.check(crlfOK, name+":crlf", P.ipos(find), "length 2 exactly for CR immediately followed by LF", "NewlineIndex (library form): "+whyCRLF+": CR LF is counted as two line ends (a spurious empty line / premature dispatch) or a lone CR swallows the next byte")
+	}
+	return true
+}
+
+// isCtorResult0: v is result 0 of a call to the guarded constructor newMessageField.
+func isCtorResult0(P *Program, v ssa.Value) bool {
+	e, ok := v.(*ssa.Extract)
+	if !ok || e.Index != 0 {
+		return false
+	}
+	call, ok := e.Tuple.(*ssa.Call)
+	if !ok {
+		return false
+	}
+	ctor := P.Fn("newMessageField")
+	return ctor != nil && call.Call.StaticCallee() == ctor
+}
+
+// newlineIndexLoop checks the loop forms of NewlineIndex path-wise, whatever their control structure
+// (break + single return with named results, early returns from a switch, …):
+//
+//	for i := 0; i < len(s); i++   — the index starts at 0 and advances by one
+//	continue ⇒ s[i] is neither CR nor LF
+//	return (i, k≥1) ⇒ s[i] is CR or LF;  k == 2 ⇒ s[i] == CR ∧ i+1 < len(s) ∧ s[i+1] == LF;  k == 1 ⇒ not that
+//	return (len(s) | i with !(i < len(s)), 0) ⇒ the loop condition failed
+//
+// It returns false if the function has no such loop (the caller tries the other forms).
+func newlineIndexLoop(c *Ctx, ni *ssa.Function, part string) bool {
+	P := c.P
+	name := "parser.NewlineIndex"
+	if len(ni.Params) != 1 {
+		return false
+	}
+	s := ni.Params[0]
+	loops := loopsOf(ni)
+	if len(loops) != 1 {
+		return false
+	}
+	L := loops[0]
+	// the loop index: a phi at the head with a constant-0 entry edge and +1 back edges
+	var idx *ssa.Phi
+	for _, in := range L.Head.Instrs {
+		phi, ok := in.(*ssa.Phi)
+		if !ok {
+			break
+		}
+		startOK, stepOK, steps := false, true, 0
+		for i, e := range phi.Edges {
+			pred := L.Head.Preds[i]
+			if !L.Blocks[pred] {
+				if k, ok := constInt(e); ok && k == 0 {
+					startOK = true
+				}
+				continue
+			}
+			b, ok := e.(*ssa.BinOp)
+			if !ok || b.Op != token.ADD || b.X != ssa.Value(phi) {
+				stepOK = false
+				continue
+			}
+			if k, ok := constInt(b.Y); !ok || k != 1 {
+				stepOK = false
+			}
+			steps++
+		}
+		if startOK && stepOK && steps > 0 {
+			idx = phi
+		}
+	}
+	if idx == nil {
+		return false
+	}
+	isI := func(v ssa.Value) bool { return v == ssa.Value(idx) }
+	byteAt := func(v ssa.Value, off int64) bool {
+		var x, ix ssa.Value
+		switch q := v.(type) {
+		case *ssa.Index:
+			x, ix = q.X, q.Index
+		case *ssa.Lookup:
+			x, ix = q.X, q.Index
+		default:
+			return false
+		}
+		if x != ssa.Value(s) {
+			return false
+		}
+		if off == 0 {
+			return isI(ix)
+		}
+		b, ok := ix.(*ssa.BinOp)
+		if !ok || b.Op != token.ADD || !isI(b.X) {
+			return false
+		}
+		k, isK := constInt(b.Y)
+		return isK && k == off
+	}
+	stopEdge := func(e cfgEdge) bool { return e.From.Succs[e.Idx] == L.Head && L.Blocks[e.From] }
+	// start after the head's phis
+	start := 0
+	for start < len(L.Head.Instrs) {
+		if _, isPhi := L.Head.Instrs[start].(*ssa.Phi); !isPhi {
+			break
+		}
+		start++
+	}
+	paths, okP := walkPaths(L.Head, start, 4096, nil, nil, stopEdge)
+	if !okP || len(paths) == 0 {
+		c.undecided(name+":shape", P.pos(ni.Pos()), "too many paths through one iteration of the scan loop")
+		return true
+	}
+	type facts struct {
+		isLF, isCR, notLF, notCR, nlcT, nlcF, inB, outB, nextLF, nextNotLF, condT, condF bool
+	}
+	gather := func(p absPath) facts {
+		var f facts
+		for e := range p.St.Edges {
+			if len(e.From.Instrs) == 0 {
+				continue
+			}
+			ifi, isIf := e.From.Instrs[len(e.From.Instrs)-1].(*ssa.If)
+			if !isIf {
+				continue
+			}
+			cnd := decodeIf(ifi)
+			if cnd.Y == nil {
+				if sT, ok := boolEdge(ifi, func(v ssa.Value) bool {
+					call, ok := isModCall(v, "parser.isNewlineChar")
+					return ok && byteAt(call.Call.Args[0], 0)
+				}); ok {
+					if e.Idx == sT {
+						f.nlcT = true
+					} else {
+						f.nlcF = true
+					}
+				}
+				continue
+			}
+			holds := func(op token.Token) bool { return e.Idx == cnd.succWhen(true) == (cnd.Op == op) }
+			_ = holds
+			if k, isK := constInt(cnd.Y); isK && (cnd.Op == token.EQL || cnd.Op == token.NEQ) {
+				eq := (e.Idx == cnd.succWhen(true)) == (cnd.Op == token.EQL)
+				switch {
+				case byteAt(cnd.X, 0) && k == 10:
+					if eq {
+						f.isLF = true
+					} else {
+						f.notLF = true
+					}
+				case byteAt(cnd.X, 0) && k == 13:
+					if eq {
+						f.isCR = true
+					} else {
+						f.notCR = true
+					}
+				case byteAt(cnd.X, 1) && k == 10:
+					if eq {
+						f.nextLF = true
+					} else {
+						f.nextNotLF = true
+					}
+				}
+			}
+			// bounds: i < len(s) (loop condition), i+1 < len(s), i < len(s)-1
+			lenS := func(v ssa.Value) bool { return isLenOf(v, s) }
+			lenS1 := func(v ssa.Value) bool {
+				b, ok := v.(*ssa.BinOp)
+				if !ok || b.Op != token.SUB || !isLenOf(b.X, s) {
+					return false
+				}
+				k, isK := constInt(b.Y)
+				return isK && k == 1
+			}
+			i1 := func(v ssa.Value) bool {
+				b, ok := v.(*ssa.BinOp)
+				if !ok || b.Op != token.ADD || !isI(b.X) {
+					return false
+				}
+				k, isK := constInt(b.Y)
+				return isK && k == 1
+			}
+			x, y, op := cnd.X, cnd.Y, cnd.Op
+			if lenS(x) || lenS1(x) {
+				x, y, op = y, x, flipOp(op)
+			}
+			taken := e.Idx == cnd.succWhen(true)
+			less := func() (bool, bool) { // (established x < y, established x >= y)
+				switch op {
+				case token.LSS:
+					return taken, !taken
+				case token.GEQ:
+					return !taken, taken
+				}
+				return false, false
+			}
+			if isI(x) && lenS(y) {
+				lt, ge := less()
+				f.condT = f.condT || lt
+				f.condF = f.condF || ge
+			}
+			if (i1(x) && lenS(y)) || (isI(x) && lenS1(y)) {
+				lt, ge := less()
+				f.inB = f.inB || lt
+				f.outB = f.outB || ge
+			}
+		}
+		// a byte that is LF is not CR and vice versa
+		if f.isLF {
+			f.notCR = true
+		}
+		if f.isCR {
+			f.notLF = true
+		}
+		return f
+	}
+	advOK, lenOK, crlfOK := true, true, true
+	whyAdv, whyLen, whyCRLF := "", "", ""
+	nCont, nFound, nNone, sawTwo := 0, 0, 0, false
+	for _, p := range paths {
+		f := gather(p)
+		if p.EndEdge != nil {
+			nCont++
+			if !((f.notLF && f.notCR) || f.nlcF) {
+				advOK = false
+				whyAdv = "the index can advance past a byte without it having been found to be neither CR nor LF"
+			}
+			continue
+		}
+		if p.Ret == nil || len(p.Ret.Results) != 2 {
+			lenOK = false
+			whyLen = "an unexpected exit from the scan loop"
+			continue
+		}
+		ri, rl := p.St.resolve(p.Ret.Results[0]), p.St.resolve(p.Ret.Results[1])
+		k, isK := evalInt(rl)
+		if !isK {
+			lenOK = false
+			whyLen = "a returned length that is not a constant on its path"
+			continue
+		}
+		found := f.isLF || f.isCR || f.nlcT
+		switch {
+		case k == 0:
+			nNone++
+			if !(f.condF && !found && (isI(ri) || isLenOf(ri, s))) {
+				lenOK = false
+				whyLen = "length 0 is returned on a path where the scan did not reach the end of s (or the index is not the end)"
+			}
+		case k >= 1:
+			nFound++
+			if !(found && isI(ri)) {
+				lenOK = false
+				whyLen = "a nonzero length is returned without a line-break byte having been found at the returned index"
+			}
+			isCRLF := f.isCR && f.inB && f.nextLF
+			switch k {
+			case 2:
+				sawTwo = true
+				if !isCRLF {
+					crlfOK = false
+					whyCRLF = "length 2 is reported without s[i] == CR, i+1 < len(s) and s[i+1] == LF having been established"
+				}
+			case 1:
+				if !(f.notCR || f.outB || f.nextNotLF) {
+					crlfOK = false
+					whyCRLF = "length 1 is reported on a path that did not rule out CR LF"
+				}
+			default:
+				crlfOK = false
+				whyCRLF = "a length other than 1 or 2"
+			}
+		}
+	}
+	if nCont == 0 || nFound == 0 || nNone == 0 {
+		lenOK = false
+		whyLen = "the scan loop lacks a continue, a found or an exhausted path"
+	}
+	if !sawTwo {
+		crlfOK = false
+		whyCRLF = "CR LF is never reported as one terminator of length 2"
+	}
+	if part == "shape" {
+		c.ok(name+":scan-order", P.pos(ni.Pos()), "the scan starts at 0 and advances by one byte")
+		c.check(advOK, name+":advance-guard", P.pos(ni.Pos()), "the index advances only past bytes that are neither CR nor LF", whyAdv+": s[:index] may contain a line break")
+		c.check(lenOK, name+":length", P.pos(ni.Pos()), "length is 0 only when the scan reached the end of s, and >= 1 exactly when a line-break byte was found at the returned index ("+itoa(len(paths))+" paths)",
+			whyLen+": isSingleLine / NextChunk misjudge the value")
+	} else {
+		c.check(crlfOK, name+":crlf", P.pos(ni.Pos()), "length is 2 exactly for CR followed by LF inside the string, 1 for every other line break", "NewlineIndex does not report length 2 exactly for CR immediately followed by LF (within bounds): "+whyCRLF+": CRLF counts as two line breaks (a spurious blank line ends the event early) or a lone CR swallows the next byte")
 	}
 	return true
 }
